@@ -37,7 +37,9 @@ def configs(draw, kinds=KINDS, kappa_lo=1e-6, tm_relative_kappa=True, gammas=GAM
     if kind in IS_TM and tm_relative_kappa:
         # kappa is the (dimensional) draw margin of the TM models: keep t = kappa / c_iq inside the
         # range for which C17 states the corrections' error.
-        kappa = draw(st.one_of(st.just(1e-4 * scale), logu(1e-6, 1.4e-2).map(lambda r: r * beta)))
+        # ... and inside (0, 1e-2], the range the properties quantify over (it is also the dimensionless variance floor).
+        lo, hi = 1e-6 * beta, min(1.4e-2 * beta, 1e-2)
+        kappa = draw(st.one_of(st.just(min(hi, max(lo, 1e-4))), logu(lo, hi).map(lambda k: min(hi, max(lo, k)))))
     else:
         kappa = draw(st.one_of(st.just(1e-4), logu(kappa_lo, 1e-2)))
     tau = draw(st.one_of(
